@@ -415,7 +415,7 @@ def gen(repo) -> str:
     L.append("def defTemplateInherited : List (List Char) := [" + ", ".join(lean_str(a) for a in inherited) + "]")
     L.append("/-- `runtime._render`: the (encoding, errors) arguments of the `FastEncodingBuffer` that produces the bytes -/")
     L.append("def renderBufferArgs : List (List Char) := [" + ", ".join(lean_str(a) for a in buf_args) + "]")
-    L.append("/-- dotted names inspected by the condition of `codegen.visitExpression` that sends an expression through `create_filter_callable` -/")
+    L.append("/-- dotted names occurring in the test of the single top-level `if` of `codegen.visitExpression` (the condition that sends an expression through `create_filter_callable`); only membership of names is recorded, not how the test combines them -/")
     L.append("def exprFilterSources : List (List Char) := [" + ", ".join(lean_str(a) for a in expr_sources) + "]\n")
     L.append("/-- `html.entities.codepoint2name` of the running interpreter (sorted by code point), %d entries -/" % len(c2n))
     L.append("def codepoint2name : List (Nat × List Char) := [\n" +
